@@ -41,9 +41,6 @@ M = [
      "        if dryrun:\n            url = \"\"\n        elif skip_profile:\n            url = self.url\n        else:\n            RqCls2url = self._get_service_urls(\n                timeout=timeout,\n                gen_newfileuid=gen_newfileuid,\n            )\n\n            # HACK FIXME\n            # As a simplification, we assume that FIs handle all classes\n            # of statement request from a single URL.\n            urls = set(RqCls2url.values())\n            assert len(urls) == 1\n            url = urls.pop()\n\n        logger.info(\"Creating account info request\")",
      "        if dryrun:\n            url = \"\"\n        else:\n            RqCls2url = self._get_service_urls(\n                timeout=timeout,\n                gen_newfileuid=gen_newfileuid,\n            )\n            urls = set(RqCls2url.values())\n            assert len(urls) == 1\n            url = urls.pop()\n\n        logger.info(\"Creating account info request\")"),
     # ---- C15
-    ("C15", "cache-before-checks", "Client.py",
-     "        proftrnrs = ofx.profmsgsrsv1[0]\n        if proftrnrs.status.code == 1:\n            assert profrs is not None",
-     "        proftrnrs = ofx.profmsgsrsv1[0]\n        if proftrnrs.status.code == 0 and proftrnrs.profrs is not None:\n            response.seek(0)\n            self._write_cached_profile(persistpath, response.read(), proftrnrs.profrs.dtprofup)\n        if proftrnrs.status.code == 1:\n            assert profrs is not None"),
     ("C15", "no-date-assert-no-compare", "Client.py",
      "            assert dtprofup is None or dtprofup <= dtprofup_server\n", "            pass\n"),
     ("C15", "no-newer-check", "Client.py",
@@ -55,15 +52,11 @@ M = [
     ("C15", "non-atomic-write", "Client.py",
      "            fd, tmppath = tempfile.mkstemp(\n                dir=str(path.parent), prefix=path.name + \".\", suffix=\".tmp\"\n            )\n            try:\n                with os.fdopen(fd, \"wb\") as f:\n                    f.write(data)\n                os.replace(tmppath, path)",
      "            tmppath = str(path)\n            try:\n                with open(path, \"wb\") as f:\n                    f.write(data)"),
-    ("C15", "fixed-temp-name", "Client.py",
-     "            fd, tmppath = tempfile.mkstemp(\n                dir=str(path.parent), prefix=path.name + \".\", suffix=\".tmp\"\n            )\n            try:\n                with os.fdopen(fd, \"wb\") as f:",
-     "            tmppath = str(path) + \".tmp\"\n            try:\n                with open(tmppath, \"wb\") as f:"),
     ("C15", "key-without-url", "Client.py",
      'filename = f"{self.org}-{self.fid}-{urlhash}.profrs"', 'filename = f"{self.org}-{self.fid}.profrs"'),
     ("C15", "no-lock", "Client.py", "        with _PROFILE_CACHE_LOCK:\n            _, dtprofup_cached", "        if True:\n            _, dtprofup_cached"),
-    ("C15", "unreadable-cache-raises", "Client.py",
-     "        except Exception as exc:\n            logger.warning(f\"Ignoring unreadable cached profile {path}: {exc}\")\n            return None, None",
-     "        except Exception as exc:\n            raise"),
+    # (equivalent given the newer-check/lock/atomic replace, so not listed: cache written before the status/date checks;
+    #  a fixed temp name under the lock; re-raising on an unreadable cache)
     # ---- C17
     ("C17", "groom-no-deepcopy", "models/base.py", "        elem = deepcopy(elem)\n\n        for child in set(elem):", "        for child in set(elem):"),
     ("C17", "shared-treebuilder", "Parser.py",
